@@ -762,3 +762,280 @@ Theorem block_pory_step_real :
 Proof. exact TwinParse.block_pory_step_real. Qed.
 Print Assumptions block_pory_step_real.
 
+
+(* ---- THE PROGRAM-LEVEL STATEMENT in its simplest form (TwinProgram.v): one statement poryswitch directly in the block of a top-level
+   script of a whole program. twin_program(_real): if the original token list is accepted, the list in which the poryswitch is replaced
+   by the body tokens of the selected case (last case with the switch value, else last '_'; same tokens, same positions) is
+   accepted too and the two programs have the same shape; twin_compile(_at): hence Compile.compile gives the SAME outcome for the
+   two sources - from source text to output text, every configuration, both settings, markers on or off. no_case_program /
+   no_case_compile: no matching case and no '_' in normal mode = the error 'no poryswitch case found' at the poryswitch.
+   twin_steps_compile: a chain of such replacements (reaches a poryswitch nested in a selected case). No look-ahead premise is left;
+   boundary B1 does not arise in a top-level block. other_case_error_counterexample (TwinProgram.v): a syntax error in an
+   UNSELECTED case makes the original fail while the twin compiles (all cases are parsed, one is kept): the premise 'the original
+   is accepted' cannot be replaced by 'the twin is accepted' (boundary B9). NOT proved: a poryswitch nested in if / while / do /
+   switch bodies or in inline map scripts; all poryswitches at once. ---- *)
+From Pory Require TwinProgram. Open Scope list_scope.
+Theorem twin_program_at :
+  forall (av : list (text * autovar)) (sw : list (text * text)) (ee : bool) (pf : toks -> Parser.res (token * text * text * toks)),
+  Independence.format_advs pf ->
+  Independence.format_local pf ->
+  Independence.format_lt pf ->
+  forall (T : toks) (f1 : nat) (st1 : pstate) (xs : toks) (g : bool) (t1 t2 t3 : toks) (b1 : list stmt) (i1 : impdata) 
+    (z : toks) (sc : text) (sv : option text) (ts1 : toks) (F : nat) (cases : list (text * (list stmt * impdata))) (ts2 : toks) 
+    (ss : list stmt) (imp' : impdata) (body ra : list token) (p1 : program),
+  let c := pconsts st1 in
+  let name := tlit (cur t2) in
+  eof_ended T ->
+  Independence.tops_run av sw ee pf (5 * Datatypes.length T + 4) TwinProgram.st0 T f1 st1 xs ->
+  ttype (cur xs) = SCRIPT ->
+  scope_modifier true xs = Parser.Ok (g, t1) ->
+  expect_peek IDENT t1 = Some t2 ->
+  expect_peek LBRACE t2 = Some t3 ->
+  TwinParse.srun av sw ee pf c name [] [] (adv t3) b1 i1 z ->
+  curis PORYSWITCH z = true ->
+  poryswitch_header sw ee z = Parser.Ok (sc, sv, ts1) ->
+  5 * Datatypes.length z <= F ->
+  parse_pory_cases av sw ee pf c F name [] [] (cur ts1) ts1 [] = Parser.Ok (cases, ts2) ->
+  pory_select cases sv = Some (ss, imp') ->
+  advs ts1 (body ++ ra) ->
+  TwinParse.srun av sw ee pf c name [] [] (body ++ ra) ss imp' ra ->
+  advs ra ts2 ->
+  curis RBRACE ra = true \/ curis IDENT ra = true \/ curis INT ra = true ->
+  parse_program av sw ee pf T = Parser.Ok p1 ->
+  exists (U : list token) (p2 : program),
+    T = U ++ z /\
+    Datatypes.length (U ++ body ++ adv ts2) < Datatypes.length T /\
+    parse_program av sw ee pf (U ++ body ++ adv ts2) = Parser.Ok p2 /\ shape_program p1 = shape_program p2.
+Proof. exact TwinProgram.twin_program_at. Qed.
+Print Assumptions twin_program_at.
+
+Theorem twin_program :
+  forall (av : list (text * autovar)) (sw : list (text * text)) (ee : bool) (pf : toks -> Parser.res (token * text * text * toks)),
+  Independence.format_advs pf ->
+  Independence.format_local pf ->
+  Independence.format_lt pf ->
+  forall (T : toks) (f1 : nat) (st1 : pstate) (xs : toks) (g : bool) (t1 t2 t3 : toks) (b1 : list stmt) (i1 : impdata) 
+    (z : toks) (sc : text) (sv : option text) (ts1 : toks) (F : nat) (cases : list (text * (list stmt * impdata))) (ts2 : toks) 
+    (ss : list stmt) (imp' : impdata) (p1 : program),
+  let c := pconsts st1 in
+  let name := tlit (cur t2) in
+  eof_ended T ->
+  Independence.tops_run av sw ee pf (5 * Datatypes.length T + 4) TwinProgram.st0 T f1 st1 xs ->
+  ttype (cur xs) = SCRIPT ->
+  scope_modifier true xs = Parser.Ok (g, t1) ->
+  expect_peek IDENT t1 = Some t2 ->
+  expect_peek LBRACE t2 = Some t3 ->
+  TwinParse.srun av sw ee pf c name [] [] (adv t3) b1 i1 z ->
+  curis PORYSWITCH z = true ->
+  poryswitch_header sw ee z = Parser.Ok (sc, sv, ts1) ->
+  5 * Datatypes.length z <= F ->
+  parse_pory_cases av sw ee pf c F name [] [] (cur ts1) ts1 [] = Parser.Ok (cases, ts2) ->
+  pory_select cases sv = Some (ss, imp') ->
+  parse_program av sw ee pf T = Parser.Ok p1 ->
+  exists
+    (U : list token) (l : list (text * (list stmt * impdata))) (key : text) (l1 l2 : list (text * (list stmt * impdata))) 
+  (tsc ra tsn : toks) (body : list token) (p2 : program),
+    T = U ++ z /\
+    cases = rev l /\
+    l = l1 ++ (key, (ss, imp')) :: l2 /\
+    assoc l2 key = None /\
+    (key = sval sv \/ key = t "_" /\ assoc l (sval sv) = None) /\
+    TwinParse.case_seq av sw ee pf c name [] [] ts1 l1 tsc /\
+    TwinParse.case_at av sw ee pf c name [] [] tsc key ss imp' ra tsn /\
+    TwinParse.case_seq av sw ee pf c name [] [] tsn l2 ts2 /\
+    curis RBRACE ts2 = true /\
+    adv (adv tsc) = body ++ ra /\
+    Datatypes.length (U ++ body ++ adv ts2) < Datatypes.length T /\
+    parse_program av sw ee pf (U ++ body ++ adv ts2) = Parser.Ok p2 /\ shape_program p1 = shape_program p2.
+Proof. exact TwinProgram.twin_program. Qed.
+Print Assumptions twin_program.
+
+Theorem twin_program_real :
+  forall (av : list (text * autovar)) (sw : list (text * text)) (ee : bool) (fc : fontcfg) (font : text) (ml : Z) (T : toks) 
+    (f1 : nat) (st1 : pstate) (xs : toks) (g : bool) (t1 t2 t3 : toks) (b1 : list stmt) (i1 : impdata) (z : toks) (sc : text) 
+    (sv : option text) (ts1 : toks) (F : nat) (cases : list (text * (list stmt * impdata))) (ts2 : toks) (ss : list stmt) 
+    (imp' : impdata) (p1 : program),
+  let c := pconsts st1 in
+  let name := tlit (cur t2) in
+  eof_ended T ->
+  Independence.tops_run av sw ee (parse_format fc font ml ee) (5 * Datatypes.length T + 4) TwinProgram.st0 T f1 st1 xs ->
+  ttype (cur xs) = SCRIPT ->
+  scope_modifier true xs = Parser.Ok (g, t1) ->
+  expect_peek IDENT t1 = Some t2 ->
+  expect_peek LBRACE t2 = Some t3 ->
+  TwinParse.srun av sw ee (parse_format fc font ml ee) c name [] [] (adv t3) b1 i1 z ->
+  curis PORYSWITCH z = true ->
+  poryswitch_header sw ee z = Parser.Ok (sc, sv, ts1) ->
+  5 * Datatypes.length z <= F ->
+  parse_pory_cases av sw ee (parse_format fc font ml ee) c F name [] [] (cur ts1) ts1 [] = Parser.Ok (cases, ts2) ->
+  pory_select cases sv = Some (ss, imp') ->
+  parse_program av sw ee (parse_format fc font ml ee) T = Parser.Ok p1 ->
+  exists
+    (U : list token) (l : list (text * (list stmt * impdata))) (key : text) (l1 l2 : list (text * (list stmt * impdata))) 
+  (tsc ra tsn : toks) (body : list token) (p2 : program),
+    T = U ++ z /\
+    cases = rev l /\
+    l = l1 ++ (key, (ss, imp')) :: l2 /\
+    assoc l2 key = None /\
+    (key = sval sv \/ key = t "_" /\ assoc l (sval sv) = None) /\
+    TwinParse.case_seq av sw ee (parse_format fc font ml ee) c name [] [] ts1 l1 tsc /\
+    TwinParse.case_at av sw ee (parse_format fc font ml ee) c name [] [] tsc key ss imp' ra tsn /\
+    TwinParse.case_seq av sw ee (parse_format fc font ml ee) c name [] [] tsn l2 ts2 /\
+    curis RBRACE ts2 = true /\
+    adv (adv tsc) = body ++ ra /\
+    Datatypes.length (U ++ body ++ adv ts2) < Datatypes.length T /\
+    parse_program av sw ee (parse_format fc font ml ee) (U ++ body ++ adv ts2) = Parser.Ok p2 /\ shape_program p1 = shape_program p2.
+Proof. exact TwinProgram.twin_program_real. Qed.
+Print Assumptions twin_program_real.
+
+Theorem twin_compile_at :
+  forall (hl hd hs : N -> bool) (av : list (text * autovar)) (sw : list (text * text)) (ee : bool) (fc : fontcfg) (font : text) 
+    (ml : Z) (optimize : bool) (mpath : option text) (src : text) (f1 : nat) (st1 : pstate) (xs : toks) (g : bool) (t1 t2 t3 : toks)
+    (b1 : list stmt) (i1 : impdata) (z : toks) (sc : text) (sv : option text) (ts1 : toks) (F : nat)
+    (cases : list (text * (list stmt * impdata))) (ts2 : toks) (ss : list stmt) (imp' : impdata) (body ra : list token) 
+    (p1 : program),
+  let pf := parse_format fc font ml ee in
+  let T := lex hl hd hs src in
+  let c := pconsts st1 in
+  let name := tlit (cur t2) in
+  Independence.tops_run av sw ee pf (5 * Datatypes.length T + 4) TwinProgram.st0 T f1 st1 xs ->
+  ttype (cur xs) = SCRIPT ->
+  scope_modifier true xs = Parser.Ok (g, t1) ->
+  expect_peek IDENT t1 = Some t2 ->
+  expect_peek LBRACE t2 = Some t3 ->
+  TwinParse.srun av sw ee pf c name [] [] (adv t3) b1 i1 z ->
+  curis PORYSWITCH z = true ->
+  poryswitch_header sw ee z = Parser.Ok (sc, sv, ts1) ->
+  5 * Datatypes.length z <= F ->
+  parse_pory_cases av sw ee pf c F name [] [] (cur ts1) ts1 [] = Parser.Ok (cases, ts2) ->
+  pory_select cases sv = Some (ss, imp') ->
+  advs ts1 (body ++ ra) ->
+  TwinParse.srun av sw ee pf c name [] [] (body ++ ra) ss imp' ra ->
+  advs ra ts2 ->
+  curis RBRACE ra = true \/ curis IDENT ra = true \/ curis INT ra = true ->
+  parse_program av sw ee pf T = Parser.Ok p1 ->
+  forall (U : list token) (src' : text),
+  T = U ++ z ->
+  lex hl hd hs src' = U ++ body ++ adv ts2 ->
+  Compile.compile hl hd hs av sw ee fc font ml optimize mpath src = Compile.compile hl hd hs av sw ee fc font ml optimize mpath src'.
+Proof. exact TwinProgram.twin_compile_at. Qed.
+Print Assumptions twin_compile_at.
+
+Theorem twin_compile :
+  forall (hl hd hs : N -> bool) (av : list (text * autovar)) (sw : list (text * text)) (ee : bool) (fc : fontcfg) (font : text) 
+    (ml : Z) (optimize : bool) (mpath : option text) (src : text) (f1 : nat) (st1 : pstate) (xs : toks) (g : bool) (t1 t2 t3 : toks)
+    (b1 : list stmt) (i1 : impdata) (z : toks) (sc : text) (sv : option text) (ts1 : toks) (F : nat)
+    (cases : list (text * (list stmt * impdata))) (ts2 : toks) (ss : list stmt) (imp' : impdata) (p1 : program),
+  let pf := parse_format fc font ml ee in
+  let T := lex hl hd hs src in
+  let c := pconsts st1 in
+  let name := tlit (cur t2) in
+  Independence.tops_run av sw ee pf (5 * Datatypes.length T + 4) TwinProgram.st0 T f1 st1 xs ->
+  ttype (cur xs) = SCRIPT ->
+  scope_modifier true xs = Parser.Ok (g, t1) ->
+  expect_peek IDENT t1 = Some t2 ->
+  expect_peek LBRACE t2 = Some t3 ->
+  TwinParse.srun av sw ee pf c name [] [] (adv t3) b1 i1 z ->
+  curis PORYSWITCH z = true ->
+  poryswitch_header sw ee z = Parser.Ok (sc, sv, ts1) ->
+  5 * Datatypes.length z <= F ->
+  parse_pory_cases av sw ee pf c F name [] [] (cur ts1) ts1 [] = Parser.Ok (cases, ts2) ->
+  pory_select cases sv = Some (ss, imp') ->
+  parse_program av sw ee pf T = Parser.Ok p1 ->
+  exists
+    (U : list token) (l : list (text * (list stmt * impdata))) (key : text) (l1 l2 : list (text * (list stmt * impdata))) 
+  (tsc ra tsn : toks) (body : list token),
+    T = U ++ z /\
+    cases = rev l /\
+    l = l1 ++ (key, (ss, imp')) :: l2 /\
+    assoc l2 key = None /\
+    (key = sval sv \/ key = t "_" /\ assoc l (sval sv) = None) /\
+    TwinParse.case_seq av sw ee pf c name [] [] ts1 l1 tsc /\
+    TwinParse.case_at av sw ee pf c name [] [] tsc key ss imp' ra tsn /\
+    TwinParse.case_seq av sw ee pf c name [] [] tsn l2 ts2 /\
+    curis RBRACE ts2 = true /\
+    adv (adv tsc) = body ++ ra /\
+    Datatypes.length (U ++ body ++ adv ts2) < Datatypes.length T /\
+    (forall src' : text,
+     lex hl hd hs src' = U ++ body ++ adv ts2 ->
+     Compile.compile hl hd hs av sw ee fc font ml optimize mpath src = Compile.compile hl hd hs av sw ee fc font ml optimize mpath src').
+Proof. exact TwinProgram.twin_compile. Qed.
+Print Assumptions twin_compile.
+
+Theorem no_case_program :
+  forall (av : list (text * autovar)) (sw : list (text * text)) (pf : toks -> Parser.res (token * text * text * toks)),
+  Independence.format_advs pf ->
+  Independence.format_lt pf ->
+  forall (T : toks) (f1 : nat) (st1 : pstate) (xs : toks) (g : bool) (t1 t2 t3 : toks) (b1 : list stmt) (i1 : impdata) 
+    (z : toks) (sc : text) (sv : option text) (ts1 : toks) (F : nat) (cases : list (text * (list stmt * impdata))) (ts2 : toks),
+  let c := pconsts st1 in
+  let name := tlit (cur t2) in
+  eof_ended T ->
+  Independence.tops_run av sw true pf (5 * Datatypes.length T + 4) TwinProgram.st0 T f1 st1 xs ->
+  ttype (cur xs) = SCRIPT ->
+  scope_modifier true xs = Parser.Ok (g, t1) ->
+  expect_peek IDENT t1 = Some t2 ->
+  expect_peek LBRACE t2 = Some t3 ->
+  TwinParse.srun av sw true pf c name [] [] (adv t3) b1 i1 z ->
+  curis PORYSWITCH z = true ->
+  poryswitch_header sw true z = Parser.Ok (sc, sv, ts1) ->
+  5 * Datatypes.length z <= F ->
+  parse_pory_cases av sw true pf c F name [] [] (cur ts1) ts1 [] = Parser.Ok (cases, ts2) ->
+  pory_select cases sv = None -> parse_program av sw true pf T = err_tok (cur z) "no poryswitch case found".
+Proof. exact TwinProgram.no_case_program. Qed.
+Print Assumptions no_case_program.
+
+Theorem no_case_compile :
+  forall (hl hd hs : N -> bool) (av : list (text * autovar)) (sw : list (text * text)) (fc : fontcfg) (font : text) 
+    (ml : Z) (optimize : bool) (mpath : option text) (src : text) (f1 : nat) (st1 : pstate) (xs : toks) (g : bool) (t1 t2 t3 : toks)
+    (b1 : list stmt) (i1 : impdata) (z : toks) (sc : text) (sv : option text) (ts1 : toks) (F : nat)
+    (cases : list (text * (list stmt * impdata))) (ts2 : toks),
+  let pf := parse_format fc font ml true in
+  let T := lex hl hd hs src in
+  let c := pconsts st1 in
+  let name := tlit (cur t2) in
+  Independence.tops_run av sw true pf (5 * Datatypes.length T + 4) TwinProgram.st0 T f1 st1 xs ->
+  ttype (cur xs) = SCRIPT ->
+  scope_modifier true xs = Parser.Ok (g, t1) ->
+  expect_peek IDENT t1 = Some t2 ->
+  expect_peek LBRACE t2 = Some t3 ->
+  TwinParse.srun av sw true pf c name [] [] (adv t3) b1 i1 z ->
+  curis PORYSWITCH z = true ->
+  poryswitch_header sw true z = Parser.Ok (sc, sv, ts1) ->
+  5 * Datatypes.length z <= F ->
+  parse_pory_cases av sw true pf c F name [] [] (cur ts1) ts1 [] = Parser.Ok (cases, ts2) ->
+  pory_select cases sv = None ->
+  exists e : perr,
+    Compile.compile hl hd hs av sw true fc font ml optimize mpath src = Compile.OutErr e /\
+    emsg e = t "no poryswitch case found" /\ els e = tline (cur z) /\ ecs e = tsb (cur z).
+Proof. exact TwinProgram.no_case_compile. Qed.
+Print Assumptions no_case_compile.
+
+Theorem twin_step :
+  (N -> bool) ->
+  (N -> bool) -> (N -> bool) -> list (text * autovar) -> list (text * text) -> bool -> fontcfg -> text -> Z -> text -> text -> Prop.
+Proof. exact TwinProgram.twin_step. Qed.
+Print Assumptions twin_step.
+
+Theorem twin_steps :
+  (N -> bool) ->
+  (N -> bool) -> (N -> bool) -> list (text * autovar) -> list (text * text) -> bool -> fontcfg -> text -> Z -> text -> text -> Prop.
+Proof. exact TwinProgram.twin_steps. Qed.
+Print Assumptions twin_steps.
+
+Theorem twin_step_compile :
+  forall (hl hd hs : N -> bool) (av : list (text * autovar)) (sw : list (text * text)) (ee : bool) (fc : fontcfg) (font : text) 
+    (ml : Z) (optimize : bool) (mpath : option text) (src src' : text),
+  TwinProgram.twin_step hl hd hs av sw ee fc font ml src src' ->
+  Compile.compile hl hd hs av sw ee fc font ml optimize mpath src = Compile.compile hl hd hs av sw ee fc font ml optimize mpath src'.
+Proof. exact TwinProgram.twin_step_compile. Qed.
+Print Assumptions twin_step_compile.
+
+Theorem twin_steps_compile :
+  forall (hl hd hs : N -> bool) (av : list (text * autovar)) (sw : list (text * text)) (ee : bool) (fc : fontcfg) (font : text) 
+    (ml : Z) (optimize : bool) (mpath : option text) (src src' : text),
+  TwinProgram.twin_steps hl hd hs av sw ee fc font ml src src' ->
+  Compile.compile hl hd hs av sw ee fc font ml optimize mpath src = Compile.compile hl hd hs av sw ee fc font ml optimize mpath src'.
+Proof. exact TwinProgram.twin_steps_compile. Qed.
+Print Assumptions twin_steps_compile.
+
